@@ -72,6 +72,10 @@ pub struct C16 {
     pub knob_mid: Option<u32>,
     /// call the writer()/writer_mut() accessors (without writing) whenever no future is in flight
     pub touch: bool,
+    /// once the caller lane is exhausted, drop on every further Pending (then sync) instead of polling on
+    pub late_cancel: bool,
+    /// call flush() between a cancelled write and the resuming sync()
+    pub flush_mid: bool,
     pub sink: Vec<Step>,
     /// outcomes of the sink's poll_flush, whoever calls it (Pending / Err(kind) / Ok)
     pub flush_lane: Vec<Step>,
@@ -112,6 +116,7 @@ struct World {
     budget: u64,
     ret_err: [u64; 4],
     ret_zero: u64,
+    cw: std::sync::Arc<CountWaker>,
 }
 
 impl World {
@@ -174,6 +179,17 @@ impl World {
         Ok(())
     }
 
+    fn wakes(&self) -> usize {
+        self.cw.wakes.load(std::sync::atomic::Ordering::Relaxed)
+    }
+
+    fn lost_wakeup(&self, before: usize, what: &str) -> Result<(), Violation> {
+        if self.wakes() == before {
+            fail!("progress", "{what} returned Pending without any wake-up having been arranged during that poll: a real executor would never poll it again");
+        }
+        Ok(())
+    }
+
     fn note_io_err(&mut self, k: std::io::ErrorKind, at: &str) -> Result<(), Violation> {
         let core = self.core.borrow();
         if k == std::io::ErrorKind::WriteZero {
@@ -229,6 +245,7 @@ impl<'w, 'a> EncVisitor for WriteVisitor<'w, 'a> {
         let mut first = true;
         loop {
             w.tick()?;
+            let wakes_before = w.wakes();
             let p = fut.as_mut().poll(&mut cx);
             if first {
                 first = false;
@@ -237,6 +254,7 @@ impl<'w, 'a> EncVisitor for WriteVisitor<'w, 'a> {
             match p {
                 Poll::Ready(r) => return Ok(Drive::Done(r)),
                 Poll::Pending => {
+                    w.lost_wakeup(wakes_before, "write")?;
                     if w.caller.next() == Decide::Cancel {
                         let ph = w.core.borrow().phase();
                         let mut o = w.obs.borrow_mut();
@@ -268,11 +286,13 @@ fn sync_to_completion(w: &mut World, writer: &mut AsyncWriter<SimAsyncSink>, wak
             let mut fut = Box::pin(writer.sync());
             loop {
                 w.tick()?;
+                let wakes_before = w.wakes();
                 let p = fut.as_mut().poll(&mut cx);
                 w.check_sink(at)?;
                 match p {
                     Poll::Ready(r) => break Some(r),
                     Poll::Pending => {
+                        w.lost_wakeup(wakes_before, "sync")?;
                         if w.caller.next() == Decide::Cancel {
                             break None;
                         }
@@ -369,11 +389,14 @@ impl C16 {
         if self.init_buf > 0 {
             obs.borrow_mut().fault(fk::garbage_buffer);
         }
-        let (_cw, waker) = new_waker();
+        let (cw, waker) = new_waker();
+        if self.late_cancel {
+            obs.borrow_mut().fault(fk::late_cancel);
+        }
         let mut w = World {
             core: core.clone(),
             obs: obs.clone(),
-            caller: Caller::new(self.caller.clone()),
+            caller: Caller::with_default(self.caller.clone(), if self.late_cancel { Decide::Cancel } else { Decide::Poll }),
             committed: Vec::new(),
             inflight: None,
             inflight_seen: 0,
@@ -381,6 +404,7 @@ impl C16 {
             budget,
             ret_err: [0; 4],
             ret_zero: 0,
+            cw: cw.clone(),
         };
 
         let mut write_cancels = 0u32;
@@ -463,6 +487,26 @@ impl C16 {
                     }
                     if self.touch {
                         let _ = writer.writer_mut();
+                    }
+                    if self.flush_mid {
+                        // flushing the sink is not a write: the frame in flight must survive it
+                        obs.borrow_mut().fault(fk::flush_between_cancel_and_sync);
+                        let mut cx = Context::from_waker(&waker);
+                        let mut fut = Box::pin(writer.flush());
+                        loop {
+                            w.tick()?;
+                            match fut.as_mut().poll(&mut cx) {
+                                Poll::Ready(Ok(())) => break,
+                                Poll::Ready(Err(Error::Io(e))) => {
+                                    w.note_io_err(e.kind(), "flush before sync")?;
+                                    break;
+                                }
+                                Poll::Ready(Err(e)) => fail!("s_commit", "flush before the resuming sync failed: {e}"),
+                                Poll::Pending => {}
+                            }
+                        }
+                        drop(fut);
+                        w.check_sink("flush before sync")?;
                     }
                     sync_to_completion(&mut w, &mut writer, &waker, &format!("sync after cancelled write #{idx}"))?;
                 }
@@ -552,6 +596,8 @@ impl Scenario for C16 {
             .set("rewrap_at", self.rewrap_at)
             .set("knob_mid", self.knob_mid)
             .set("touch", self.touch)
+            .set("late_cancel", self.late_cancel)
+            .set("flush_mid", self.flush_mid)
             .set("sink", lane_to_json(&self.sink))
             .set("flush_lane", lane_to_json(&self.flush_lane))
             .set("caller", decides_to_json(&self.caller))
@@ -566,6 +612,8 @@ impl Scenario for C16 {
             rewrap_at: j.get("rewrap_at").and_then(|c| c.as_u64()).map(|c| c as u32),
             knob_mid: j.get("knob_mid").and_then(|c| c.as_u64()).map(|c| c as u32),
             touch: j.get("touch").and_then(|c| c.as_bool()).unwrap_or(false),
+            late_cancel: j.get("late_cancel").and_then(|c| c.as_bool()).unwrap_or(false),
+            flush_mid: j.get("flush_mid").and_then(|c| c.as_bool()).unwrap_or(false),
             sink: lane_from_json(j.get("sink"))?,
             flush_lane: if j.get("flush_lane").is_some() { lane_from_json(j.get("flush_lane"))? } else { Vec::new() },
             caller: decides_from_json(j.get("caller"))?,
@@ -643,6 +691,12 @@ impl Scenario for C16 {
         if self.touch {
             out.push(C16 { touch: false, ..self.clone() });
         }
+        if self.late_cancel {
+            out.push(C16 { late_cancel: false, ..self.clone() });
+        }
+        if self.flush_mid {
+            out.push(C16 { flush_mid: false, ..self.clone() });
+        }
         out
     }
 }
@@ -654,7 +708,7 @@ fn val(ty: Ty, size: u32, seed: u64) -> Item {
 }
 
 fn base(items: Vec<Item>) -> C16 {
-    C16 { items, max_len_mode: 0, init_buf: 0, use_ctx: false, knob_at: 0, rewrap_at: None, knob_mid: None, touch: false, sink: vec![], flush_lane: vec![], caller: vec![] }
+    C16 { items, max_len_mode: 0, init_buf: 0, use_ctx: false, knob_at: 0, rewrap_at: None, knob_mid: None, touch: false, late_cancel: false, flush_mid: false, sink: vec![], flush_lane: vec![], caller: vec![] }
 }
 
 fn total_len(items: &[Item]) -> usize {
@@ -746,6 +800,8 @@ fn generate_single(r: &mut Rng, tier: Tier) -> C16 {
         rewrap_at: if r.chance(1, 6) { Some(r.below(nitems as u64) as u32) } else { None },
         knob_mid: if r.chance(1, 4) { Some(r.below(3) as u32) } else { None },
         touch: r.chance(1, 3),
+        late_cancel: r.chance(1, 3),
+        flush_mid: r.chance(1, 3),
         sink,
         flush_lane: if r.chance(1, 3) {
             (0..r.usize_in(1, 12)).map(|_| match r.below(4) { 0 => Step::Pending, 1 => Step::Err(*r.pick(&ERR_KINDS)), _ => Step::Xfer(1) }).collect()
